@@ -1,11 +1,8 @@
 //! Correspondence harness for the server side (C01-C06, C13 pieces).
 //! Same line protocol as ml/driver.ml: `<id> <op> <tokens...>` in, `<id> <result>` out.
 use std::io::{BufRead, Read, Write};
-use std::os::unix::net::UnixStream;
 use std::panic::{catch_unwind, AssertUnwindSafe};
-use std::sync::atomic::{AtomicBool, AtomicUsize, Ordering};
-use std::sync::Arc;
-use std::time::{Duration, Instant};
+use std::time::Duration;
 
 use varlink::ConnectionHandler;
 use vharness::*;
@@ -55,66 +52,6 @@ fn feed(svc: &varlink::VarlinkService, chunks: &[Vec<u8>]) -> String {
         hex(&tail),
         err
     )
-}
-
-static SOCK_N: AtomicUsize = AtomicUsize::new(0);
-
-struct Server {
-    addr: String,
-    stop: Arc<AtomicBool>,
-    th: Option<std::thread::JoinHandle<()>>,
-}
-
-impl Server {
-    fn start(spec: &SvcSpec, max_workers: usize) -> Server {
-        let n = SOCK_N.fetch_add(1, Ordering::SeqCst);
-        let addr = format!("unix:@vharness-{}-{}", std::process::id(), n);
-        let stop = Arc::new(AtomicBool::new(false));
-        let svc = spec.build(false);
-        let a2 = addr.clone();
-        let s2 = stop.clone();
-        let th = std::thread::spawn(move || {
-            let _ = varlink::listen(
-                svc,
-                &a2,
-                &varlink::ListenConfig {
-                    initial_worker_threads: 1,
-                    max_worker_threads: max_workers,
-                    idle_timeout: 0,
-                    stop_listening: Some(s2),
-                },
-            );
-        });
-        // wait until the socket accepts
-        let deadline = Instant::now() + Duration::from_secs(5);
-        loop {
-            if let Ok(_c) = connect_abstract(&addr) {
-                break;
-            }
-            if Instant::now() > deadline {
-                panic!("server did not start");
-            }
-            std::thread::sleep(Duration::from_millis(5));
-        }
-        Server { addr, stop, th: Some(th) }
-    }
-}
-
-impl Drop for Server {
-    fn drop(&mut self) {
-        self.stop.store(true, Ordering::SeqCst);
-        if let Some(t) = self.th.take() {
-            let _ = t.join();
-        }
-    }
-}
-
-fn connect_abstract(addr: &str) -> std::io::Result<UnixStream> {
-    use std::os::linux::net::SocketAddrExt;
-    use std::os::unix::net::SocketAddr;
-    let name = addr.strip_prefix("unix:@").unwrap();
-    let sa = SocketAddr::from_abstract_name(name)?;
-    UnixStream::connect_addr(&sa)
 }
 
 /// One connection: write the chunks (delay_us between them), half-close, read to EOF.
